@@ -233,16 +233,20 @@ macro_rules! with_method {
             }
             !rej.contains(&t)
         };
+        let mut d_each = |_e: &Edge<usize, i64, u32>| {};
+        let mut d_filter = |_e: &Edge<usize, i64, u32>| -> bool { false };
         let b = $b;
         match $spec.method.as_str() {
             // `$post`: configuration calls made AFTER the closure was attached (builder call order must not matter)
+            // variants with bit 96: a closure of the OTHER kind is installed first (the two share one slot: the later call
+            // wins, and nothing of the first one may stay behind)
             "each" => {
-                let mut b = b.for_each(&mut f_each);
+                let mut b = if $spec.variant / 96 % 2 == 1 { b.filter(&mut d_filter).for_each(&mut f_each) } else { b.for_each(&mut f_each) };
                 $cfg!(b, $post);
                 $run!(b)
             }
             "filter" => {
-                let mut b = b.filter(&mut f_filter);
+                let mut b = if $spec.variant / 96 % 2 == 1 { b.for_each(&mut d_each).filter(&mut f_filter) } else { b.filter(&mut f_filter) };
                 $cfg!(b, $post);
                 $run!(b)
             }
